@@ -14,6 +14,8 @@
  *   an empty dump is "-"
  * queries and answers:
  *   P                      -> P:<hex lyd_path(LYD_PATH_STD) of every node, document order, joined by ','>
+ *   W:<flags> / Q:<flag>   -> echoed: what the model has to compute (W: swf, dwf, quotes_ok of the input; Q: the input is the
+ *                             example tree of Properties_C15_pathmodel.v)
  *   F:<path-hex>           -> F:<0|E ly_path_parse()>:<S<pos> | I<pos> | N | E<rc>>   lyd_find_path(first sibling, path, type == y)
  *                             pos = child indices from the top level joined by '.'; I = LY_EINCOMPLETE with the partial match
  *   N:<path-hex>:<val-hex> -> N:<E<rc> | dump of the created tree>                   lyd_new_path2(NULL, ctx, path, value, ..)
@@ -191,7 +193,7 @@ query(struct ly_ctx *ctx, struct lyd_node *tree, int out, char *q)
         }
         return;
     }
-    if (q[0] == 'W') {
+    if ((q[0] == 'W') || (q[0] == 'Q')) {
         /* well-formedness flags the model has to compute: echoed */
         printf("%s", q);
         return;
